@@ -280,6 +280,11 @@ Fixpoint f_infer_loop (fuel : nat) (k : fkb) (roots : list nat) (dirs : option d
 
 Definition f_has_contradiction (k : fkb) (registered : list nat) (s : fstate) : bool :=
   existsb (fun i => existsb (fun r => is_contra (falpha (getf k i)) (rcur r)) (ftab s i)) registered.
+(* formula.py:_contradiction_loss summed by Model.loss_fn over the model's nodes: every ROW whose bounds cross outside the
+   tolerance adds L - U; rows that do not cross add nothing (contradicting_bounds() is per grounding) *)
+Definition row_closs (al : Q) (r : row) : Q := if is_contra al (rcur r) then lo (rcur r) - hi (rcur r) else 0.
+Definition f_contradiction_loss (k : fkb) (registered : list nat) (s : fstate) : Q :=
+  qsum (map (fun i => qsum (map (row_closs (falpha (getf k i))) (ftab s i))) registered).
 Definition f_reset_bounds (registered : list nat) (s : fstate) : fstate :=
   fold_left (fun st i => set_tab st i (t_reset (ftab st i))) registered s.
 Definition f_flush (registered : list nat) (s : fstate) : fstate :=
